@@ -1400,6 +1400,9 @@ def compile_pattern(compiler, pattern):
         ]
         return asty.MatchSequence(value, patterns=patterns)
     elif is_unpack("iterable", value):
+        if value[1] == Symbol("_"):
+            # `#* _` is a wildcard, like Python's `*_`: it binds nothing.
+            return asty.MatchStar(value)
         return compiler.scope.assign(asty.MatchStar(value, name=mangle(value[1])))
 
     elif isinstance(value, Dict):
